@@ -142,10 +142,10 @@ def run(ctx):
                 toks = sent_node.find('.//tokens')
                 import copy
                 norm = normalize_tokens(copy.deepcopy(toks))
-                for tk in norm:
+                for tk, tk0 in zip(norm, toks):
                     for key in ('surf', 'base'):
                         v = tk.get(key)
-                        if v is not None and not X.normalized_ok(v):
+                        if v is not None and not X.normalized_ok(v, tk0.get(key)):
                             ctx.fail(f'token name {v!r} is not a normalised identifier free of logic punctuation', desc,
                                      fingerprint=['normalize', key])
             if lang == 'ja':
@@ -179,7 +179,7 @@ def run(ctx):
             except Exception as e:
                 out = 'err ' + wire.err_name(e)
             cases.append(('normalize', 'normalize ' + enc_str(w), out, w))
-            if out.startswith('ok') and not X.normalized_ok(normalize_token(w)):
+            if out.startswith('ok') and not X.normalized_ok(normalize_token(w), w):
                 ctx.fail(f'normalize_token({w!r}) = {normalize_token(w)!r} is not free of logic punctuation', w,
                          fingerprint=['normalize-token', w])
     finally:
